@@ -14,9 +14,9 @@
 //@ endstruct
 
 // R11 (unit-wide): the RwLock guard becomes the `guard` parameter; `self._helper(<guard>, ..)` becomes the free function `_helper(guard, ..)`
-//@ rwall R11 re⟦let (?:mut )?guard = self\.(?:read|write)_guard\(\);⟧ => ⟦⟧
+//@ rwall R11 re⟦let (?:mut )?guard = (?:self|vfs)\.(?:read|write)_guard\(\);⟧ => ⟦⟧
 //@ rwall R11 re⟦&(?:mut )?self\.(?:read|write)_guard\(\)⟧ => ⟦guard⟧
-//@ rwall R11 re⟦\bself\.(_[a-z_]+)\(\s*(?:&mut |&)?guard\b⟧ => ⟦\1(guard⟧
+//@ rwall R11 re⟦\b(?:self|vfs)\.(_[a-z_]+)\(\s*(?:&mut |&)?guard\b⟧ => ⟦\1(guard⟧
 //@ rwall R11 re⟦\btarget\.is_absolute\(\)⟧ => ⟦target.is_absolute2()⟧
 // R10 (unit-wide): the crate macro unwrap_or_false!(e) is `match e { Ok(v) => v, Err(_) => return false }` (src/core/result.rs:18; ASSUMED[macro-unwrap-or-false]: transcribed, not re-extracted)
 //@ rwall R10 re⟦unwrap_or_false!\(((?:[^()]|\([^()]*\))*)\)⟧ => ⟦match \1 { Ok(v) => v, Err(_) => return false }⟧
@@ -1329,8 +1329,8 @@ impl VfsEntry {
     #[verifier::external_body] pub fn is_symlink_file(&self) -> (r: bool) ensures r == (self.iv().link && self.xfile()) { unimplemented!() }
 }
 // the options of an Entries traversal that the callers under contract set
-pub struct TravCfg { pub follow: bool, pub max_depth: usize, pub contents_first: bool, pub dirs_first: bool, pub pre_op: bool }
-pub open spec fn default_cfg(follow: bool) -> TravCfg { TravCfg { follow: follow, max_depth: usize::MAX, contents_first: false, dirs_first: false, pre_op: false } }
+pub struct TravCfg { pub follow: bool, pub min_depth: usize, pub max_depth: usize, pub contents_first: bool, pub dirs_first: bool, pub pre_op: bool, pub sort_by_name: bool, pub only_dirs: bool, pub only_files: bool }
+pub open spec fn default_cfg(follow: bool) -> TravCfg { TravCfg { follow: follow, min_depth: 0, max_depth: usize::MAX, contents_first: false, dirs_first: false, pre_op: false, sort_by_name: false, only_dirs: false, only_files: false } }
 pub uninterp spec fn traversal_cfg(snap: St, root: PathV, cfg: TravCfg) -> Seq<ItemV>;
 pub open spec fn traversal(snap: St, root: PathV, follow: bool) -> Seq<ItemV> { traversal_cfg(snap, root, default_cfg(follow)) }
 pub open spec fn no_links(s: St) -> bool { forall|p: PathV| s.entries.contains_key(p) ==> !(#[trigger] s.entries[p]).link }
@@ -1357,8 +1357,17 @@ impl EntriesIt {
     pub open spec fn items(&self) -> Seq<ItemV> { traversal_cfg(self.snap(), self.root(), self.cfg()) }
     #[verifier::external_body]
     pub fn follow(self, yes: bool) -> (r: EntriesIt) ensures r.snap() == self.snap(), r.root() == self.root(), r.cfg() == (TravCfg { follow: yes, ..self.cfg() }), r.idx() == self.idx() { unimplemented!() }
+    // ASSUMED[entries-opts]: the Entries option setters as proved in unit entries_opts (min/max depth are clamped against each other)
     #[verifier::external_body]
-    pub fn max_depth(self, n: usize) -> (r: EntriesIt) ensures r.snap() == self.snap(), r.root() == self.root(), r.cfg() == (TravCfg { max_depth: n, ..self.cfg() }), r.idx() == self.idx() { unimplemented!() }
+    pub fn max_depth(self, n: usize) -> (r: EntriesIt) ensures r.snap() == self.snap(), r.root() == self.root(), r.cfg() == (TravCfg { max_depth: if n < self.cfg().min_depth { self.cfg().min_depth } else { n }, ..self.cfg() }), r.idx() == self.idx() { unimplemented!() }
+    #[verifier::external_body]
+    pub fn min_depth(self, n: usize) -> (r: EntriesIt) ensures r.snap() == self.snap(), r.root() == self.root(), r.cfg() == (TravCfg { min_depth: if n > self.cfg().max_depth { self.cfg().max_depth } else { n }, ..self.cfg() }), r.idx() == self.idx() { unimplemented!() }
+    #[verifier::external_body]
+    pub fn sort_by_name(self) -> (r: EntriesIt) ensures r.snap() == self.snap(), r.root() == self.root(), r.cfg() == (TravCfg { sort_by_name: true, ..self.cfg() }), r.idx() == self.idx() { unimplemented!() }
+    #[verifier::external_body]
+    pub fn dirs(self) -> (r: EntriesIt) ensures r.snap() == self.snap(), r.root() == self.root(), r.cfg() == (TravCfg { only_dirs: true, only_files: false, ..self.cfg() }), r.idx() == self.idx() { unimplemented!() }
+    #[verifier::external_body]
+    pub fn files(self) -> (r: EntriesIt) ensures r.snap() == self.snap(), r.root() == self.root(), r.cfg() == (TravCfg { only_dirs: false, only_files: true, ..self.cfg() }), r.idx() == self.idx() { unimplemented!() }
     #[verifier::external_body]
     pub fn contents_first(self) -> (r: EntriesIt) ensures r.snap() == self.snap(), r.root() == self.root(), r.cfg() == (TravCfg { contents_first: true, ..self.cfg() }), r.idx() == self.idx() { unimplemented!() }
     #[verifier::external_body]
@@ -2130,7 +2139,7 @@ pub fn chmod_b(guard: &MemfsGuard, path: &PathBuf) -> (r: RvResult<Chmod>)
             r is Ok ==> ({
                 let o = r->Ok_0.opts;
                 // chmod is recursive by default, does not follow links, and starts with no octal modes and no expression
-                &&& o.path@ == spec_abs(guard.st().cwd, path.comps())->Some_0 && o.path.abs_clean()
+                &&& o.path@ == spec_abs(guard.st().cwd, path.comps())->Some_0 && o.path.abs_clean() && o.path.comps() == abs_comps(o.path@)
                 &&& o.dirs == 0 && o.files == 0 && !o.follow && o.recursive && o.sym@ == Seq::<char>::empty()     //@ clause chmod_b.defaults [C11]
             }),
 //@ body
@@ -2144,7 +2153,7 @@ pub fn chown_b(guard: &MemfsGuard, path: &PathBuf) -> (r: RvResult<Chown>)
     ensures (r is Ok) == (spec_abs(guard.st().cwd, path.comps()) is Some),
             r is Ok ==> ({
                 let o = r->Ok_0.opts;
-                &&& o.path@ == spec_abs(guard.st().cwd, path.comps())->Some_0 && o.path.abs_clean()
+                &&& o.path@ == spec_abs(guard.st().cwd, path.comps())->Some_0 && o.path.abs_clean() && o.path.comps() == abs_comps(o.path@)
                 &&& o.uid is None && o.gid is None && !o.follow && o.recursive                                     //@ clause chown_b.defaults [C11]
             }),
 //@ body
@@ -2188,4 +2197,338 @@ pub fn entry(guard: &MemfsGuard, path: &PathBuf) -> (r: RvResult<VfsEntry>)
     ensures (r is Ok) == (at(guard.st(), path.comps()) is Some),
             r is Ok ==> ({ let e = at(guard.st(), path.comps())->Some_0;
                            r->Ok_0.iv() == (ItemV { path: e.path, path_ok: e.path_ok, link: e.link }) && r->Ok_0.xmode() == e.mode && r->Ok_0.xdir() == e.dir && r->Ok_0.xfile() == e.file }),     //@ clause entry.is_the_stored_entry [C01]
+//@ body
+
+// =====================================================================================================================
+// listings (C01 "list"): dirs / files / paths / all_dirs / all_files / all_paths return, in traversal order, the paths of the entries
+// yielded by the (assumed) traversal below the directory, with exactly the documented options; anything but a real directory is refused
+pub open spec fn paths_of(items: Seq<ItemV>) -> Seq<PathV> { Seq::new(items.len(), |i: int| items[i].path) }
+pub open spec fn pviews(v: Seq<PathBuf>) -> Seq<PathV> { Seq::new(v.len(), |i: int| v[i]@) }
+pub open spec fn list_cfg(deep: bool, only_dirs: bool, only_files: bool) -> TravCfg {
+    TravCfg { min_depth: 1, max_depth: if deep { usize::MAX } else { 1 }, sort_by_name: true, only_dirs: only_dirs, only_files: only_files, ..default_cfg(false) }
+}
+//@ item dirs file=src/sys/fs/memfs/vfs.rs block="impl VirtualFileSystem for Memfs" fn=dirs props=C01,C05,C12
+//@ rw R11 1 ⟦self.is_dir(&path)⟧ => ⟦is_dir(guard, path)⟧
+//@ rw R11 1 ⟦self.entries(path)?⟧ => ⟦_entries(guard, path)?⟧
+//@ rw R9 * ⟦let mut paths: Vec<PathBuf> = vec![];⟧ => ⟦let mut paths: Vec<PathBuf> = Vec::new();⟧
+//@ rw R3 1 for
+//@ ins before re⟦\{ let mut __it1 =⟧
+        let ghost s0 = guard.st();
+//@ endins
+//@ loop 1
+            invariant
+                __it1.snap() == s0, s0 == guard.st(), spec_abs(s0.cwd, path.comps()) is Some, __it1.root() == spec_abs(s0.cwd, path.comps())->Some_0,
+                at(s0, path.comps()) is Some && at(s0, path.comps())->Some_0.dir && !at(s0, path.comps())->Some_0.link,
+                __it1.cfg() == list_cfg(false, true, false), __it1.idx() <= __it1.items().len(),
+                paths@.len() == __it1.idx(),
+                forall|i: int| 0 <= i < paths@.len() ==> (#[trigger] paths@[i])@ == __it1.items()[i].path,
+            ensures __it1.idx() == __it1.items().len(),
+            decreases __it1.items().len() - __it1.idx()
+//@ endloop
+//@ ins after ⟦let entry = entry?;⟧
+            let ghost before = paths@;
+            let ghost k0 = (__it1.idx() - 1) as int;
+            proof { assert(entry.iv() == __it1.items()[k0]); }
+//@ endins
+//@ ins loopend 1
+            proof { assert(paths@ =~= before.push(paths@[k0])); assert forall|i: int| 0 <= i < paths@.len() implies (#[trigger] paths@[i])@ == __it1.items()[i].path by { if i < k0 { assert(paths@[i] == before[i]); } } }
+//@ endins
+pub fn dirs(guard: &MemfsGuard, path: &PathBuf) -> (r: RvResult<Vec<PathBuf>>)
+    requires guard.st().cwd_ok
+    ensures ({
+        let s = guard.st();
+        let e = at(s, path.comps());
+        &&& !(e is Some && e->Some_0.dir && !e->Some_0.link) ==> r is Err && r->Err_0.kind == ErrKind::IsNotDir                      //@ clause dirs.refuses_anything_but_a_directory [C01]
+        &&& r is Ok ==> pviews(r->Ok_0@) =~= paths_of(traversal_cfg(s, spec_abs(s.cwd, path.comps())->Some_0, list_cfg(false, true, false)))     //@ clause dirs.lists_the_traversal_with_the_documented_options [C01]
+    }),
+//@ body
+//@ item files file=src/sys/fs/memfs/vfs.rs block="impl VirtualFileSystem for Memfs" fn=files props=C01,C05,C12
+//@ rw R11 1 ⟦self.is_dir(&path)⟧ => ⟦is_dir(guard, path)⟧
+//@ rw R11 1 ⟦self.entries(path)?⟧ => ⟦_entries(guard, path)?⟧
+//@ rw R9 * ⟦let mut paths: Vec<PathBuf> = vec![];⟧ => ⟦let mut paths: Vec<PathBuf> = Vec::new();⟧
+//@ rw R3 1 for
+//@ ins before re⟦\{ let mut __it1 =⟧
+        let ghost s0 = guard.st();
+//@ endins
+//@ loop 1
+            invariant
+                __it1.snap() == s0, s0 == guard.st(), spec_abs(s0.cwd, path.comps()) is Some, __it1.root() == spec_abs(s0.cwd, path.comps())->Some_0,
+                at(s0, path.comps()) is Some && at(s0, path.comps())->Some_0.dir && !at(s0, path.comps())->Some_0.link,
+                __it1.cfg() == list_cfg(false, false, true), __it1.idx() <= __it1.items().len(),
+                paths@.len() == __it1.idx(),
+                forall|i: int| 0 <= i < paths@.len() ==> (#[trigger] paths@[i])@ == __it1.items()[i].path,
+            ensures __it1.idx() == __it1.items().len(),
+            decreases __it1.items().len() - __it1.idx()
+//@ endloop
+//@ ins after ⟦let entry = entry?;⟧
+            let ghost before = paths@;
+            let ghost k0 = (__it1.idx() - 1) as int;
+            proof { assert(entry.iv() == __it1.items()[k0]); }
+//@ endins
+//@ ins loopend 1
+            proof { assert(paths@ =~= before.push(paths@[k0])); assert forall|i: int| 0 <= i < paths@.len() implies (#[trigger] paths@[i])@ == __it1.items()[i].path by { if i < k0 { assert(paths@[i] == before[i]); } } }
+//@ endins
+pub fn files(guard: &MemfsGuard, path: &PathBuf) -> (r: RvResult<Vec<PathBuf>>)
+    requires guard.st().cwd_ok
+    ensures ({
+        let s = guard.st();
+        let e = at(s, path.comps());
+        &&& !(e is Some && e->Some_0.dir && !e->Some_0.link) ==> r is Err && r->Err_0.kind == ErrKind::IsNotDir                      //@ clause files.refuses_anything_but_a_directory [C01]
+        &&& r is Ok ==> pviews(r->Ok_0@) =~= paths_of(traversal_cfg(s, spec_abs(s.cwd, path.comps())->Some_0, list_cfg(false, false, true)))     //@ clause files.lists_the_traversal_with_the_documented_options [C01]
+    }),
+//@ body
+//@ item paths file=src/sys/fs/memfs/vfs.rs block="impl VirtualFileSystem for Memfs" fn=paths props=C01,C05,C12
+//@ rw R11 1 ⟦self.is_dir(&path)⟧ => ⟦is_dir(guard, path)⟧
+//@ rw R11 1 ⟦self.entries(path)?⟧ => ⟦_entries(guard, path)?⟧
+//@ rw R9 * ⟦let mut paths: Vec<PathBuf> = vec![];⟧ => ⟦let mut paths: Vec<PathBuf> = Vec::new();⟧
+//@ rw R3 1 for
+//@ ins before re⟦\{ let mut __it1 =⟧
+        let ghost s0 = guard.st();
+//@ endins
+//@ loop 1
+            invariant
+                __it1.snap() == s0, s0 == guard.st(), spec_abs(s0.cwd, path.comps()) is Some, __it1.root() == spec_abs(s0.cwd, path.comps())->Some_0,
+                at(s0, path.comps()) is Some && at(s0, path.comps())->Some_0.dir && !at(s0, path.comps())->Some_0.link,
+                __it1.cfg() == list_cfg(false, false, false), __it1.idx() <= __it1.items().len(),
+                paths@.len() == __it1.idx(),
+                forall|i: int| 0 <= i < paths@.len() ==> (#[trigger] paths@[i])@ == __it1.items()[i].path,
+            ensures __it1.idx() == __it1.items().len(),
+            decreases __it1.items().len() - __it1.idx()
+//@ endloop
+//@ ins after ⟦let entry = entry?;⟧
+            let ghost before = paths@;
+            let ghost k0 = (__it1.idx() - 1) as int;
+            proof { assert(entry.iv() == __it1.items()[k0]); }
+//@ endins
+//@ ins loopend 1
+            proof { assert(paths@ =~= before.push(paths@[k0])); assert forall|i: int| 0 <= i < paths@.len() implies (#[trigger] paths@[i])@ == __it1.items()[i].path by { if i < k0 { assert(paths@[i] == before[i]); } } }
+//@ endins
+pub fn paths(guard: &MemfsGuard, path: &PathBuf) -> (r: RvResult<Vec<PathBuf>>)
+    requires guard.st().cwd_ok
+    ensures ({
+        let s = guard.st();
+        let e = at(s, path.comps());
+        &&& !(e is Some && e->Some_0.dir && !e->Some_0.link) ==> r is Err && r->Err_0.kind == ErrKind::IsNotDir                      //@ clause paths.refuses_anything_but_a_directory [C01]
+        &&& r is Ok ==> pviews(r->Ok_0@) =~= paths_of(traversal_cfg(s, spec_abs(s.cwd, path.comps())->Some_0, list_cfg(false, false, false)))     //@ clause paths.lists_the_traversal_with_the_documented_options [C01]
+    }),
+//@ body
+//@ item all_dirs file=src/sys/fs/memfs/vfs.rs block="impl VirtualFileSystem for Memfs" fn=all_dirs props=C01,C05,C12
+//@ rw R11 1 ⟦self.is_dir(&path)⟧ => ⟦is_dir(guard, path)⟧
+//@ rw R11 1 ⟦self.entries(path)?⟧ => ⟦_entries(guard, path)?⟧
+//@ rw R9 * ⟦let mut paths: Vec<PathBuf> = vec![];⟧ => ⟦let mut paths: Vec<PathBuf> = Vec::new();⟧
+//@ rw R3 1 for
+//@ ins before re⟦\{ let mut __it1 =⟧
+        let ghost s0 = guard.st();
+//@ endins
+//@ loop 1
+            invariant
+                __it1.snap() == s0, s0 == guard.st(), spec_abs(s0.cwd, path.comps()) is Some, __it1.root() == spec_abs(s0.cwd, path.comps())->Some_0,
+                at(s0, path.comps()) is Some && at(s0, path.comps())->Some_0.dir && !at(s0, path.comps())->Some_0.link,
+                __it1.cfg() == list_cfg(true, true, false), __it1.idx() <= __it1.items().len(),
+                paths@.len() == __it1.idx(),
+                forall|i: int| 0 <= i < paths@.len() ==> (#[trigger] paths@[i])@ == __it1.items()[i].path,
+            ensures __it1.idx() == __it1.items().len(),
+            decreases __it1.items().len() - __it1.idx()
+//@ endloop
+//@ ins after ⟦let entry = entry?;⟧
+            let ghost before = paths@;
+            let ghost k0 = (__it1.idx() - 1) as int;
+            proof { assert(entry.iv() == __it1.items()[k0]); }
+//@ endins
+//@ ins loopend 1
+            proof { assert(paths@ =~= before.push(paths@[k0])); assert forall|i: int| 0 <= i < paths@.len() implies (#[trigger] paths@[i])@ == __it1.items()[i].path by { if i < k0 { assert(paths@[i] == before[i]); } } }
+//@ endins
+pub fn all_dirs(guard: &MemfsGuard, path: &PathBuf) -> (r: RvResult<Vec<PathBuf>>)
+    requires guard.st().cwd_ok
+    ensures ({
+        let s = guard.st();
+        let e = at(s, path.comps());
+        &&& !(e is Some && e->Some_0.dir && !e->Some_0.link) ==> r is Err && r->Err_0.kind == ErrKind::IsNotDir                      //@ clause all_dirs.refuses_anything_but_a_directory [C01]
+        &&& r is Ok ==> pviews(r->Ok_0@) =~= paths_of(traversal_cfg(s, spec_abs(s.cwd, path.comps())->Some_0, list_cfg(true, true, false)))     //@ clause all_dirs.lists_the_traversal_with_the_documented_options [C01]
+    }),
+//@ body
+//@ item all_files file=src/sys/fs/memfs/vfs.rs block="impl VirtualFileSystem for Memfs" fn=all_files props=C01,C05,C12
+//@ rw R11 1 ⟦self.is_dir(&path)⟧ => ⟦is_dir(guard, path)⟧
+//@ rw R11 1 ⟦self.entries(path)?⟧ => ⟦_entries(guard, path)?⟧
+//@ rw R9 * ⟦let mut paths: Vec<PathBuf> = vec![];⟧ => ⟦let mut paths: Vec<PathBuf> = Vec::new();⟧
+//@ rw R3 1 for
+//@ ins before re⟦\{ let mut __it1 =⟧
+        let ghost s0 = guard.st();
+//@ endins
+//@ loop 1
+            invariant
+                __it1.snap() == s0, s0 == guard.st(), spec_abs(s0.cwd, path.comps()) is Some, __it1.root() == spec_abs(s0.cwd, path.comps())->Some_0,
+                at(s0, path.comps()) is Some && at(s0, path.comps())->Some_0.dir && !at(s0, path.comps())->Some_0.link,
+                __it1.cfg() == list_cfg(true, false, true), __it1.idx() <= __it1.items().len(),
+                paths@.len() == __it1.idx(),
+                forall|i: int| 0 <= i < paths@.len() ==> (#[trigger] paths@[i])@ == __it1.items()[i].path,
+            ensures __it1.idx() == __it1.items().len(),
+            decreases __it1.items().len() - __it1.idx()
+//@ endloop
+//@ ins after ⟦let entry = entry?;⟧
+            let ghost before = paths@;
+            let ghost k0 = (__it1.idx() - 1) as int;
+            proof { assert(entry.iv() == __it1.items()[k0]); }
+//@ endins
+//@ ins loopend 1
+            proof { assert(paths@ =~= before.push(paths@[k0])); assert forall|i: int| 0 <= i < paths@.len() implies (#[trigger] paths@[i])@ == __it1.items()[i].path by { if i < k0 { assert(paths@[i] == before[i]); } } }
+//@ endins
+pub fn all_files(guard: &MemfsGuard, path: &PathBuf) -> (r: RvResult<Vec<PathBuf>>)
+    requires guard.st().cwd_ok
+    ensures ({
+        let s = guard.st();
+        let e = at(s, path.comps());
+        &&& !(e is Some && e->Some_0.dir && !e->Some_0.link) ==> r is Err && r->Err_0.kind == ErrKind::IsNotDir                      //@ clause all_files.refuses_anything_but_a_directory [C01]
+        &&& r is Ok ==> pviews(r->Ok_0@) =~= paths_of(traversal_cfg(s, spec_abs(s.cwd, path.comps())->Some_0, list_cfg(true, false, true)))     //@ clause all_files.lists_the_traversal_with_the_documented_options [C01]
+    }),
+//@ body
+//@ item all_paths file=src/sys/fs/memfs/vfs.rs block="impl VirtualFileSystem for Memfs" fn=all_paths props=C01,C05,C12
+//@ rw R11 1 ⟦self.is_dir(&path)⟧ => ⟦is_dir(guard, path)⟧
+//@ rw R11 1 ⟦self.entries(path)?⟧ => ⟦_entries(guard, path)?⟧
+//@ rw R9 * ⟦let mut paths: Vec<PathBuf> = vec![];⟧ => ⟦let mut paths: Vec<PathBuf> = Vec::new();⟧
+//@ rw R3 1 for
+//@ ins before re⟦\{ let mut __it1 =⟧
+        let ghost s0 = guard.st();
+//@ endins
+//@ loop 1
+            invariant
+                __it1.snap() == s0, s0 == guard.st(), spec_abs(s0.cwd, path.comps()) is Some, __it1.root() == spec_abs(s0.cwd, path.comps())->Some_0,
+                at(s0, path.comps()) is Some && at(s0, path.comps())->Some_0.dir && !at(s0, path.comps())->Some_0.link,
+                __it1.cfg() == list_cfg(true, false, false), __it1.idx() <= __it1.items().len(),
+                paths@.len() == __it1.idx(),
+                forall|i: int| 0 <= i < paths@.len() ==> (#[trigger] paths@[i])@ == __it1.items()[i].path,
+            ensures __it1.idx() == __it1.items().len(),
+            decreases __it1.items().len() - __it1.idx()
+//@ endloop
+//@ ins after ⟦let entry = entry?;⟧
+            let ghost before = paths@;
+            let ghost k0 = (__it1.idx() - 1) as int;
+            proof { assert(entry.iv() == __it1.items()[k0]); }
+//@ endins
+//@ ins loopend 1
+            proof { assert(paths@ =~= before.push(paths@[k0])); assert forall|i: int| 0 <= i < paths@.len() implies (#[trigger] paths@[i])@ == __it1.items()[i].path by { if i < k0 { assert(paths@[i] == before[i]); } } }
+//@ endins
+pub fn all_paths(guard: &MemfsGuard, path: &PathBuf) -> (r: RvResult<Vec<PathBuf>>)
+    requires guard.st().cwd_ok
+    ensures ({
+        let s = guard.st();
+        let e = at(s, path.comps());
+        &&& !(e is Some && e->Some_0.dir && !e->Some_0.link) ==> r is Err && r->Err_0.kind == ErrKind::IsNotDir                      //@ clause all_paths.refuses_anything_but_a_directory [C01]
+        &&& r is Ok ==> pviews(r->Ok_0@) =~= paths_of(traversal_cfg(s, spec_abs(s.cwd, path.comps())->Some_0, list_cfg(true, false, false)))     //@ clause all_paths.lists_the_traversal_with_the_documented_options [C01]
+    }),
+//@ body
+
+// =====================================================================================================================
+// chown / chmod / copy / mkfile_m as whole calls: builder -> setters -> exec -> provider callback -> _chown / _chmod / _copy.
+// R13: `Chown { opts, exec: Box::new(exec_func) }` stores the closure written in chown_b; `(self.exec)(opts)` in X::exec calls it.
+// Both ends are real code under contract here (the closure as item *_cb, exec as item *_exec); that the boxed field holds that closure
+// is the one structural fact taken from the struct literal (ASSUMED[builder-exec]).
+// ASSUMED[builder-setters]: Chown::owner / Chmod::all as proved in unit chmod_opts
+impl Chown {
+    #[verifier::external_body]
+    pub fn owner(self, uid: u32, gid: u32) -> (r: Chown) ensures r.opts == (ChownOpts { uid: Some(uid), gid: Some(gid), ..self.opts }) { unimplemented!() }
+    #[verifier::external_body]
+    pub fn uid(self, uid: u32) -> (r: Chown) ensures r.opts == (ChownOpts { uid: Some(uid), ..self.opts }) { unimplemented!() }
+    #[verifier::external_body]
+    pub fn gid(self, gid: u32) -> (r: Chown) ensures r.opts == (ChownOpts { gid: Some(gid), ..self.opts }) { unimplemented!() }
+    #[verifier::external_body]
+    pub fn follow(self) -> (r: Chown) ensures r.opts == (ChownOpts { follow: true, ..self.opts }) { unimplemented!() }
+    #[verifier::external_body]
+    pub fn recurse(self, yes: bool) -> (r: Chown) ensures r.opts == (ChownOpts { recursive: yes, ..self.opts }) { unimplemented!() }
+}
+impl Copier {
+    // ASSUMED[builder-setters]: Copier setters as proved in unit copy_opts
+    #[verifier::external_body]
+    pub fn follow(self, yes: bool) -> (r: Copier) ensures r.opts == (CopyOpts { follow: yes, ..self.opts }) { unimplemented!() }
+    #[verifier::external_body]
+    pub fn chmod_all(self, mode: u32) -> (r: Copier) ensures r.opts == (CopyOpts { cdirs: false, cfiles: false, mode: Some(mode), ..self.opts }) { unimplemented!() }
+}
+impl Chmod {
+    #[verifier::external_body]
+    pub fn all(self, mode: u32) -> (r: Chmod) ensures r.opts == (ChmodOpts { dirs: mode, files: mode, ..self.opts }) { unimplemented!() }
+}
+impl ChownOpts { #[verifier::external_body] pub fn clone(&self) -> (r: ChownOpts) ensures r == *self { unimplemented!() } }
+impl CopyOpts { #[verifier::external_body] pub fn clone(&self) -> (r: CopyOpts) ensures r == *self { unimplemented!() } }
+pub open spec fn chown_done(s0: St, s1: St, o: ChownOpts) -> bool {
+    let a = spec_abs(s0.cwd, o.path.comps());
+    a is Some && ({
+        let items = traversal_cfg(s0, a->Some_0, TravCfg { follow: o.follow, max_depth: if o.recursive { usize::MAX } else { 0 }, ..default_cfg(false) });
+        s1 == chown_fold(s0, items, items.len(), o.uid, o.gid) })
+}
+//@ item chown_cb file=src/sys/fs/memfs/vfs.rs block="impl VirtualFileSystem for Memfs" fn=chown_b closure=1 props=C11,C01,C03,C12
+//@ rw R11 1 ⟦vfs._chown(opts)⟧ => ⟦_chown(guard, opts)⟧
+pub fn chown_cb(guard: &mut MemfsGuard, opts: ChownOpts) -> (r: RvResult<()>)
+    requires wf(old(guard).st()),
+    ensures wf(final(guard).st()), r is Ok ==> chown_done(old(guard).st(), final(guard).st(), opts),
+//@ body
+impl Chown {
+//@ item chown_exec file=src/sys/fs/chown.rs block="impl Chown" fn=exec props=C11,C01,C03,C12
+//@ rw R13 1 ⟦(self.exec)(self.opts.clone())⟧ => ⟦chown_cb(guard, self.opts.clone())⟧
+    pub fn exec(&self, guard: &mut MemfsGuard) -> (r: RvResult<()>)
+        requires wf(old(guard).st()),
+        ensures wf(final(guard).st()), r is Ok ==> chown_done(old(guard).st(), final(guard).st(), self.opts),
+//@ body
+}
+//@ item chown file=src/sys/fs/memfs/vfs.rs block="impl VirtualFileSystem for Memfs" fn=chown props=C11,C01,C03,C05,C12
+//@ rw R11 1 ⟦self.chown_b(path)?⟧ => ⟦chown_b(guard, path)?⟧
+//@ rw R13 1 re⟦\.exec\(\)⟧ => ⟦.exec(guard)⟧
+//@ ins start
+    let ghost s0 = guard.st();
+//@ endins
+pub fn chown(guard: &mut MemfsGuard, path: &PathBuf, uid: u32, gid: u32) -> (r: RvResult<()>)
+    requires wf(old(guard).st()), abs_stable(old(guard).st().cwd),
+    ensures
+        wf(final(guard).st()),
+        r is Ok ==> ({
+            let s0 = old(guard).st();
+            let a = spec_abs(s0.cwd, path.comps());
+            &&& a is Some
+            // chown(path, uid, gid): recursive, not following links, both ids set on every yielded entry and nothing else
+            &&& ({ let items = traversal_cfg(s0, a->Some_0, TravCfg { follow: false, max_depth: usize::MAX, ..default_cfg(false) });
+                   final(guard).st() == chown_fold(s0, items, items.len(), Some(uid), Some(gid)) })                                     //@ clause chown.whole_call_is_recursive_non_following_fold [C11,C01]
+        }),
+//@ body
+
+pub open spec fn copy_done(s0: St, s1: St, o: CopyOpts) -> bool {
+    let a = spec_abs(s0.cwd, o.src.comps());
+    let b = spec_abs(s0.cwd, o.dst.comps());
+    &&& a is Some && b is Some
+    &&& a->Some_0 == b->Some_0 ==> s1 == s0
+    &&& a->Some_0 != b->Some_0 ==> ({
+            let c = CopyV { a: a->Some_0, b: b->Some_0, into: s0.entries.contains_key(b->Some_0) && s0.entries[b->Some_0].dir, dmode: dir_mode_of(o), fmode: file_mode_of(o) };
+            let items = traversal(s0, a->Some_0, o.follow);
+            s1 == copy_fold(s0, c, items, items.len()) && copy_ok(s0, c, items, items.len()) })
+}
+//@ item copy_cb file=src/sys/fs/memfs/vfs.rs block="impl VirtualFileSystem for Memfs" fn=copy_b closure=1 props=C09,C01,C03,C12
+pub fn copy_cb(guard: &mut MemfsGuard, cp: CopyOpts) -> (r: RvResult<()>)
+    requires wf(old(guard).st()), no_links(old(guard).st()), abs_stable(old(guard).st().cwd),
+    ensures wf(final(guard).st()), r is Ok ==> copy_done(old(guard).st(), final(guard).st(), cp),
+//@ body
+impl Copier {
+//@ item copy_exec file=src/sys/fs/copy.rs block="impl Copier" fn=exec props=C09,C01,C03,C12
+//@ rw R13 1 ⟦(self.exec)(self.opts.clone())⟧ => ⟦copy_cb(guard, self.opts.clone())⟧
+    pub fn exec(&self, guard: &mut MemfsGuard) -> (r: RvResult<()>)
+        requires wf(old(guard).st()), no_links(old(guard).st()), abs_stable(old(guard).st().cwd),
+        ensures wf(final(guard).st()), r is Ok ==> copy_done(old(guard).st(), final(guard).st(), self.opts),
+//@ body
+}
+//@ item copy file=src/sys/fs/memfs/vfs.rs block="impl VirtualFileSystem for Memfs" fn=copy props=C09,C01,C03,C05,C06,C12
+//@ rw R11 1 ⟦self.copy_b(src, dst)?⟧ => ⟦copy_b(src, dst)?⟧
+//@ rw R13 1 re⟦\.exec\(\)⟧ => ⟦.exec(guard)⟧
+pub fn copy(guard: &mut MemfsGuard, src: &PathBuf, dst: &PathBuf) -> (r: RvResult<()>)
+    requires wf(old(guard).st()), no_links(old(guard).st()), abs_stable(old(guard).st().cwd),
+    ensures
+        wf(final(guard).st()),
+        // copy(src, dst): no mode selection, links not followed: the fold of per-entry steps over the traversal of abs(src)
+        r is Ok ==> ({
+            let s0 = old(guard).st();
+            let a = spec_abs(s0.cwd, src.comps());
+            let b = spec_abs(s0.cwd, dst.comps());
+            &&& a is Some && b is Some
+            &&& a->Some_0 == b->Some_0 ==> final(guard).st() == s0
+            &&& a->Some_0 != b->Some_0 ==> ({
+                    let c = CopyV { a: a->Some_0, b: b->Some_0, into: s0.entries.contains_key(b->Some_0) && s0.entries[b->Some_0].dir, dmode: None, fmode: None };
+                    let items = traversal(s0, a->Some_0, false);
+                    final(guard).st() == copy_fold(s0, c, items, items.len()) && copy_ok(s0, c, items, items.len()) })          //@ clause copy.whole_call_keeps_modes_and_does_not_follow_links [C09,C01]
+        }),
 //@ body
